@@ -64,6 +64,11 @@ def execute(case, workdir):
             return {"oracle": "cli-search", "class": "did-not-deliver", "key": "cli-search/did-not-deliver",
                     "message": "adf-bdd %s exited %s: %s [%s]" % (" ".join(args[:-1]), rc, " ".join(err.split())[-300:], case["adf"])}
         got = models(out)
+        if got != want and case["heu"] == "Rand":
+            # the binary seeds Rand from entropy and offers no seed option: a wrong multiset under
+            # Rand cannot be replayed from here. Rand under every seed is judged by the nogood
+            # part, where the seed is a decision; here only delivery and termination are judged.
+            return None
         if got != want:
             return {"oracle": "cli-search", "class": "models-differ", "key": "cli-search/models-differ",
                     "message": "adf-bdd %s printed %s, the lazy semantics print %s [%s]" % (" ".join(args[:-1]), got, want, case["adf"])}
